@@ -23,6 +23,7 @@
      modelled; the loop itself is transport-independent. *)
 From Coq Require Import List ZArith NArith Bool Lia.
 From XV Require Import Lib.Sx Model.Keepalive Proofs.KeepaliveP.
+From XV Require Model.Recv Proofs.RecvP.
 Import ListNotations.
 
 (* Exactly one Ping per tick the loop takes: every step makes one Ping iff the loop
@@ -84,6 +85,48 @@ Proof.
   - pose proof (closes_eq_failures fail sched 0) as (Hc & Hf & Hr). cbn zeta in *.
     split; [exact Hc|]. split; [exact Hf|]. split; [exact Hr|].
     apply nothing_after_return.
+Qed.
+
+(* "...the connection is closed so that the loss is detected and reported": on the TCP
+   transport the Close that follows the failed ping writes the closing tag and then closes
+   the connection exactly once WHATEVER that write returns [cr] (on a connection that is
+   dead for writing it fails too) ... *)
+Theorem C18_failure_closes_connection : forall fail n suf cr,
+  (forall k, k <= n -> fail k = false) -> fail (S n) = true ->
+  let ct := conn_trace cr (ka_trace fail (repeat STick n ++ STick :: suf)) in
+  ct = repeat (CWrite ping_data) (S n) ++ [CWrite stream_close_data; CConnClose] /\
+  count is_connclose ct = 1.
+Proof.
+  intros fail n suf cr Hok Hf. cbn zeta.
+  destruct (C18_failure_closes_once_and_stops fail n suf Hok Hf) as (Htr & _ & Hc & _).
+  cbn zeta in Htr, Hc. rewrite conn_closes_eq_closes. split; [|exact Hc].
+  rewrite Htr, conn_trace_app, conn_trace_oks. cbn [repeat].
+  rewrite repeat_cons, <- app_assoc. reflexivity.
+Qed.
+
+(* ... in every run the connection is closed exactly as often as a ping failed (0 or 1) ... *)
+Theorem C18_connection_closed_iff_failed : forall fail sched cr,
+  count is_connclose (conn_trace cr (ka_trace fail sched)) = count is_pingfail (ka_trace fail sched).
+Proof.
+  intros fail sched cr. rewrite conn_closes_eq_closes.
+  exact (proj1 (closes_eq_failures fail sched 0)).
+Qed.
+
+(* ... and the receive loop (Model/Recv.v, property C12) whose blocked read then fails
+   reports the loss: one error callback, one Disconnected event, and it closes quit. *)
+Theorem C18_loss_reported : forall inb,
+  Recv.crecv inb 0 None [] = [Recv.AErrCall; Recv.AEvDisconnected inb; Recv.AQuit].
+Proof. reflexivity. Qed.
+
+(* "once the session has ended": however the receive loop ends (read error, element it
+   rejects, answer it cannot write, the server's closing tag) it closes quit, exactly once,
+   as its last action; the theorems below say what the keep-alive loop does from there. *)
+Theorem C18_session_end_closes_quit : forall items inb nw wf,
+  let rt := Recv.crecv inb nw wf items in
+  Recv.count_act Recv.is_quit rt = 1 /\ last rt Recv.AErrCall = Recv.AQuit.
+Proof.
+  intros items inb nw wf. pose proof (RecvP.crecv_loss items inb nw wf) as H.
+  cbn zeta in *. destruct H as (H1 & H2 & _). split; assumption.
 Qed.
 
 (* Once the loop has taken the quit branch no action follows, whatever the schedule
@@ -176,6 +219,10 @@ Print Assumptions C18_one_ping_per_tick.
 Print Assumptions C18_sent_at_every_tick.
 Print Assumptions C18_failure_closes_once_and_stops.
 Print Assumptions C18_failure_any_schedule.
+Print Assumptions C18_failure_closes_connection.
+Print Assumptions C18_connection_closed_iff_failed.
+Print Assumptions C18_loss_reported.
+Print Assumptions C18_session_end_closes_quit.
 Print Assumptions C18_after_quit_silent.
 Print Assumptions C18_stopped_silent.
 Print Assumptions C18_stops_iff.
